@@ -1,18 +1,25 @@
 # -*- coding: utf-8 -*-
 """C19 — Every accepted file can be checked and fixed without a crash or a hang."""
 from props import _pipeline
-from pyvc.checklib import Check
+from pyvc.checklib import Check, run_selftest
 from pyvc.engine import Engine
 
 META = _pipeline.meta('C19',  "Rejected files: seeded malformed variants of corpus files through the real parser and CLI (located message, exit status 1, no traceback, no hang); the crash sites of the unchanged tree are listed as known findings. Configuration shapes: every accepted shape of the file_list / file_rules sections through the real CLI.")
 
-DEDUCTIVE = ['vsg.apply_rules.apply_rules', 'vsg.vhdlFile.utils.detect_subelement_until', 'vsg.vhdlFile.utils.classify_subelement_until', 'vsg.vhdlFile.utils.object_value_is', 'vsg.vhdlFile.utils.find_next_token', 'vsg.vhdlFile.vhdlFile.vhdlFile.update', 'vsg.vhdlFile.vhdlFile.remove_beginning_of_file_tokens', 'vsg.rules.token_case.token_case._fix_violation', 'vsg.rules.whitespace_between_tokens.Rule._fix_violation', 'vsg.rules.token_indent.token_indent._fix_violation', 'vsg.rule.Rule._filter_out_fix_only_violations', 'vsg.vhdlFile.vhdlFile.split_on_carriage_return', 'vsg.vhdlFile.vhdlFile.vhdlFile.get_lines']
+PARTS = ['vsg.vhdlFile.classify.%s.detect' % p for p in ('configuration_declarative_part', 'package_body_declarative_part', 'package_declarative_part', 'process_declarative_part', 'process_statement_part', 'sequence_of_statements', 'subprogram_declarative_part', 'subprogram_statement_part')]
+DEDUCTIVE = PARTS + ['vsg.apply_rules.apply_rules', 'vsg.vhdlFile.utils.detect_subelement_until', 'vsg.vhdlFile.utils.classify_subelement_until', 'vsg.vhdlFile.utils.object_value_is', 'vsg.vhdlFile.utils.find_next_token', 'vsg.vhdlFile.vhdlFile.vhdlFile.update', 'vsg.vhdlFile.vhdlFile.remove_beginning_of_file_tokens', 'vsg.rules.token_case.token_case._fix_violation', 'vsg.rules.whitespace_between_tokens.Rule._fix_violation', 'vsg.rules.token_indent.token_indent._fix_violation', 'vsg.rule.Rule._filter_out_fix_only_violations', 'vsg.vhdlFile.vhdlFile.split_on_carriage_return', 'vsg.vhdlFile.vhdlFile.vhdlFile.get_lines']
 
 
 def run():
     c = Check("C19", "other")
     c.engine = Engine()
-    c.deductive(sorted(set(sorted(q for q in c.engine.contracts if q.startswith("vsg.tokens.")) + DEDUCTIVE + _pipeline.fix_bases(c.engine))))
+    # the classifier: generated position contracts (contracts/parser.py) of every function that verifies on the pinned tree
+    parser_q = sorted(q for q, ct in c.engine.contracts.items() if ct.get("_file") == "parser.py" and not ct.get("trusted"))
+    assumed_q = sorted(q for q, ct in c.engine.contracts.items() if ct.get("_file") == "parser.py" and ct.get("trusted") and ct.get("generated"))
+    c.deductive(sorted(set(sorted(q for q in c.engine.contracts if q.startswith("vsg.tokens.")) + DEDUCTIVE + parser_q + _pipeline.fix_bases(c.engine))))
+    c.extra["classifier_functions_under_generated_contract"] = len(parser_q)
+    c.extra["classifier_functions_with_assumed_shape"] = assumed_q
+    c.trusted.append("generated position contract ASSUMED (not verified) for %d functions of vsg/vhdlFile/classify listed in contracts/parser_unverified.json; termination of the recursion between classifiers is not proved (only of their loops)" % len(assumed_q))
     _pipeline.pipeline_part(c, "C19")
     # rejected files: located message, no other exception, no hang (malformed variants of accepted files)
     import os
@@ -35,12 +42,26 @@ def run():
             continue
         seen.add((kind, why))
         c.findings.append(Finding("bounded", "reject:" + kind, "%s [%s, %s]" % (why, os.path.relpath(path, corpus.REPO), what), {"file": path, "mutation_seed": seed, "mutation": what, "observed": why, "how_to_rerun": "cd /verif && /venv/bin/python -c 'from bounded import reject; print(reject.one((%r, %d)))'" % (path, seed)}, why))
+    # construct snippets: every single-token deletion and every truncation
+    sn = corpus.pmap(reject.snippet_case, reject.snippet_jobs(), chunksize=1)
+    flat = [x for l in sn for x in l]
+    oc = {}
+    for what, kind, why in flat:
+        oc[kind] = oc.get(kind, 0) + 1
+    c.bounded["rejected_snippets"] = {"evaluations": len(flat), "distinct_nontrivial": oc.get("rejected", 0), "outcomes": oc, "exhaustive": True, "rule": "34 small valid declarations / statements (parenthesised lists, physical types, external names, maps, loops): every single-token deletion and every truncation classified by the real parser under a %d s limit; non-trivial = rejected with a located message" % reject.LIMIT}
+    for what, kind, why in flat:
+        if why is None or (kind, why) in seen:
+            continue
+        seen.add((kind, why))
+        c.findings.append(Finding("bounded", "reject:" + kind, "%s [snippet %s]" % (why, what), {"input": what, "observed": why, "how_to_rerun": "cd /verif && /venv/bin/python -c 'from bounded import reject; [print(x) for j in reject.snippet_jobs() for x in reject.snippet_case(j) if x[2]]'"}, why))
     cfiles = corpus.sample(12 if c.tier == "quick" else 80, c.seed + 119)
     cres = corpus.pmap(reject.cli_case, [(f, c.seed * 100 + i) for i, f in enumerate(cfiles)], chunksize=1)
     c.bounded["rejected_files_cli"] = {"evaluations": len(cres), "distinct_nontrivial": len(cres), "rule": "real CLI on [file with a stray keyword line, good file]: exit status 1, message with a line number, no traceback, terminates"}
     for path, seed, kind, why in cres:
         if why:
             c.findings.append(Finding("bounded", ("reject:" if kind == "crash" else "reject_cli:") + kind, "%s [%s]" % (why, os.path.relpath(path, corpus.REPO)), {"file": path, "scenario_seed": seed, "observed": why}, why))
+    if c.tier == "thorough":
+        run_selftest(c, ["mutants_parts.py"], lambda eng: PARTS + ['vsg.vhdlFile.utils.detect_subelement_until'])
     # valid configuration shapes of the per-file sections through the real CLI
     from bounded import cfgshapes
 
